@@ -7,6 +7,10 @@ from checks import sched, simcheck, c01
 
 class Spec(c01.Spec):
     prop = 'C02'
+
+    def gen(self, rng, fam):
+        return sched.gen_scenario(rng, family=fam['family'])
+
     runs = {'quick': 24000, 'thorough': 1500000}
     families = [{'label': 'well-formed', 'family': 'well'},
                 {'label': 'malformed-returns', 'family': 'malformed'},
